@@ -128,13 +128,13 @@ class Fetched(Stream):
         self.cache = {}
 
     def fetched(self, case):
-        k = json.dumps([case["m"], case["src"]])
+        k = json.dumps([case["m"], case["src"], bool(case.get("direct"))])
         if k not in self.cache:
             if len(self.cache) > 200:
                 self.cache.clear()
             try:
                 m = self.fp.parse("\n".join(render_master(case["m"])) + "\n")
-                w = m.fetch(source=self.fp.parse(case["src"]))
+                w = m if case.get("direct") else m.fetch(source=self.fp.parse(case["src"]))
                 self.cache[k] = (m, w, None)
             except vlib.Timeout:
                 raise
@@ -183,12 +183,22 @@ CORPUS_MASTERS = [
 ]
 
 
+# parsed documents extracted as they are (no fetch).  Repaired in 3d13dfd: a disabled object in a LATER block of a scope
+# no longer makes __phil_join__ raise; the scope / the .multiple list of the earlier block stays
+DIRECT_MASTERS = [
+    [s_("s", [s_("t", [d_("a", "none")])]), s_("s", [s_("t", [d_("b", "none")], dis=True)])],
+    [s_("s", [s_("t", [d_("a", "none")])]), s_("s", [d_("t", "none", dis=True)])],
+    [s_("s", [d_("m", "int", mult=True)]), s_("s", [d_("m", "int", dis=True)])],
+]
+
+
 class Paths(Fetched):
     """case = {"m": master nodes, "src": source text, "kind": ...}"""
     name = "paths"
 
     def corpus(self):
-        return [{"m": m, "src": src, "kind": kind} for kind, m, src in CORPUS_MASTERS]
+        return [{"m": m, "src": src, "kind": kind} for kind, m, src in CORPUS_MASTERS] + \
+               [{"m": m, "src": "", "kind": "split", "direct": True} for m in DIRECT_MASTERS]
 
     def cases(self, rng, tier):
         n = 1500 if tier == "quick" else 9000
@@ -332,6 +342,9 @@ class Guard(Fetched):
             for k, name in ((0, "a"), (1, "b"), (2, "zz"), (1, "__inject__"), (0, "__phil_name__"), (3, "t"), (2, ""),
                             (1, "__x"), (3, "__phil_x"), (5, "x__"), (1, "__y")):
                 out.append({"m": m, "src": src, "kind": kind, "k": k, "name": name})
+        for m in DIRECT_MASTERS:
+            for k, name in ((1, "t"), (1, "m"), (2, "a"), (1, "zz")):
+                out.append({"m": m, "src": "", "kind": "split", "direct": True, "k": k, "name": name})
         return out
 
     def cases(self, rng, tier):
